@@ -360,22 +360,27 @@ def footprint(ctx, scratch, variant):
         if not tags <= allowed:
             ctx.violation("corr:footprint", dict(api=c["api"], call=c17.describe(c), cells=r["changed"]),
                           impl=dict(cells_written=sorted(tags), keys=r["changed"]), model=dict(shared_write_set=sorted(allowed), abstract=hg.abstract[k]),
-                          signature="C18:%s:writes-shared-cell-outside-footprint:%s" % (c["api"], (others or r["changed"])[0].replace(c17.LR_CTX, "decimal_context")),
+                          signature="C18:writes-shared-cell-outside-footprint:%s" % (others or r["changed"])[0].replace(c17.LR_CTX, "decimal_context"),
                           found_input=False)
     ctx.notes["footprint_ops_by_api"] = seen
 
 
 def forced(ctx, scratch, variant, thorough):
     rng = ctx.rng
-    any_points = False
+    flags = []
     summary = {}
-    for cfg in configurations(rng, thorough):
+    import random as _random
+
+    def one(arg):
+        cfg, seed = arg
+        rng = _random.Random(seed)          # per configuration, drawn from ctx.rng below: configurations run in parallel
         if isinstance(cfg, tuple):
             cfg = dict(zip(("name", "setup", "threads", "mcalls", "cap"), cfg), fresh_setup=False, sig=None)
         name, setup, threads, mcalls, cap = cfg["name"], cfg["setup"], cfg["threads"], cfg["mcalls"], cfg["cap"]
         fresh_setup = cfg["fresh_setup"]
         extra = dict(fresh_setup=fresh_setup, trace=cfg.get("trace", []), isolate=cfg.get("isolate", False))
-        cnt = run_job(dict(mode="count", setup=setup, threads=threads, **extra), scratch, "cnt")
+        tagn = re.sub(r"\W", "", name)
+        cnt = run_job(dict(mode="count", setup=setup, threads=threads, **extra), scratch, "cnt" + tagn)
         counts = [len(p) for p in cnt["points"]]
         seq = [r[0] for r in cnt["sequential"]]
         summary[name] = dict(points_per_thread=counts, has_module_context=cnt["has_module_context"])
@@ -389,7 +394,7 @@ def forced(ctx, scratch, variant, thorough):
                     ctx.violation("corr:forced-schedule", dict(configuration=name, thread=i, op=c17.describe(threads[i][0])),
                                   impl=r, model="ok", signature="C18:forced-schedule:sequential-run-raises", found_input=False)
         else:
-            mseq = core.coq_eval(["show_sequential %s g0 [%s]" % (variant, "; ".join(mcalls))], IMPORTS, ctx.workdir, tag="c18seq")[0]
+            mseq = core.coq_eval(["show_sequential %s g0 [%s]" % (variant, "; ".join(mcalls))], IMPORTS, ctx.workdir, tag="c18seq" + tagn)[0]
             mseq_t = parse_threads("0,0,0|" + mseq)[1]
         for i, (r, m) in enumerate(zip(seq, mseq_t)):
             ctx.count("corr:forced-schedule", (name, "seq", i), nontrivial=True)
@@ -400,8 +405,8 @@ def forced(ctx, scratch, variant, thorough):
                               signature="C18:sequential-result-differs-from-model", found_input=False)
         if not any(counts):
             summary[name]["schedules"] = 0
-            continue
-        any_points = True
+            return
+        flags.append(name)
         total = n_merges(counts)
         if cap is None or total <= cap:
             scheds = list(merges(counts))
@@ -417,8 +422,9 @@ def forced(ctx, scratch, variant, thorough):
             summary[name]["exhaustive"] = False
         # an implementation that synchronises on the shared context itself makes most requested orders infeasible
         # (each costs a time-out): probe a few, then sample
-        probe = run_job(dict(mode="forced", setup=setup, threads=threads, **extra,
-                             schedules=scheds[:: max(1, len(scheds) // 4)][:4]), scratch, "probe")
+        probe = dict(runs=[]) if extra["isolate"] else run_job(
+            dict(mode="forced", setup=setup, threads=threads, **extra, schedules=scheds[:: max(1, len(scheds) // 4)][:4]),
+            scratch, "probe" + tagn)
         if any(r["infeasible"] for r in probe["runs"]):
             rng.shuffle(scheds)
             scheds = scheds[:60]
@@ -488,9 +494,15 @@ def forced(ctx, scratch, variant, thorough):
                           model=dict(sequential=dict(status=seq[i]["st"], decimals=decimals(seq[i]), value=seq[i]["val"])),
                           signature=F4_SIG if decimals(seq[i]) != decimals(got[i]) else (cfg["sig"] or "C18:forced-schedule:result-differs-from-sequential"),
                           found_input=True)
+    cfgs = [(c, rng.randrange(2 ** 32)) for c in configurations(rng, thorough)]
+    from concurrent.futures import ThreadPoolExecutor as _TPE
+    with _TPE(max_workers=6) as ex:
+        list(ex.map(one, cfgs))
+    summary = {(c[0]["name"] if isinstance(c[0], dict) else c[0][0]): summary.get(c[0]["name"] if isinstance(c[0], dict) else c[0][0])
+               for c in cfgs}
     ctx.notes["forced_schedule"] = summary
-    ctx.sample(dict(forced_schedule=summary))
-    return any_points
+    ctx.sample(dict(forced_schedule={k: (v or {}).get("schedules") for k, v in summary.items()}))
+    return bool(flags)
 
 
 def G_trace(mcall):
